@@ -339,6 +339,74 @@ def run(ck):
     c05.r4(ck, par, rule="C18-R4")
     c05.r5(ck_alias(ck, "C18-R5"), main, cmd_push, seq, par)
     r5(ck)
+    r7_error_paths_cannot_crash(ck)
+
+
+def r7_error_paths_cannot_crash(ck, rule="C18-R7"):
+    """An output failure has to come out as an error message and exit status 1.  The code that runs *because* an operation failed -
+    the `Err` arms of matches on a Result, the closures handed to with_context / map_err / or_else - builds that error; a panic
+    there turns the failure into a crash (status 101, no message naming the file).  Every panic-capable site in such code of the
+    output scope is discharged by the range engine, or is one of two recognised cases: `lock().unwrap()` (poisoned only after another
+    thread has already panicked) and `series_patches[index]` with an index numbered off that very sequence (C16-R1c)."""
+    from .. import panics, cfg, patterns as pt
+    from . import c11
+    prog, cg = ck.prog, ck.cg
+    scope = output_scope(ck)
+    obl, an = panics.analyse_scope(prog, cg, set(scope), libcalls=True)
+    regions = {}
+
+    def err_region(fn):
+        if fn.id not in regions:
+            reg = set()
+            for sw in pt.discr_switches(fn, lambda e, rv: (rv.get("adt") or "") == "core::result::Result"):
+                e = sw["edges"].get("Err")
+                if e:
+                    reg |= cfg.dominated_by_edge(fn, e)
+            regions[fn.id] = reg
+        return regions[fn.id]
+    errclosures = set()
+    for fid in scope:
+        f = prog.fns[fid]
+        for bb, t in f.calls():
+            last = (callee_of(t).get("path") or "").split("::")[-1]
+            if last in ("with_context", "map_err", "or_else", "unwrap_or_else", "context") and len(t["args"]) >= 2 and "Result" in (t["argtys"][0] or ""):
+                e = df.operand_expr(f, t["args"][1])
+                if isinstance(e, tuple) and e and e[0] == "closure":
+                    errclosures.add(e[1])
+    ck.count("closures that build an error for a failed operation", len(errclosures))
+    n = 0
+    for o in obl:
+        if o.kind in ("alloc", "libcall") or getattr(o, "libclass", None) == "print":
+            continue
+        fn = o.fn
+        if not (fn.id in errclosures or (o.bb is not None and o.bb in err_region(fn))):
+            continue
+        n += 1
+        inst = "%s in %s: %s" % (o.kind, fn.id, c11.describe(o))
+        if o.ok:
+            ck.ok(rule, inst, o.detail, fn.where(o.term))
+            continue
+        why = None
+        t = o.term
+        if o.kind == "unwrap" and t.get("k") == "call" and t["args"]:
+            e = df.operand_expr(fn, t["args"][0])
+            if df.is_call(e, "Mutex::<T>::lock"):
+                why = "lock().unwrap(): the mutex is poisoned only when another thread has panicked while holding it"
+        if why is None and o.kind in ("bounds", "index"):
+            txt = o.what + " " + c11.describe(o)
+            if "series_patches" in txt:
+                # the index is a captured / local value numbered off the series (enumerate), see C16-R1c
+                par_ = prog.fns.get(fn.parent) if fn.kind == "Closure" else fn
+                enum = [1 for b2, t2 in (par_.calls() if par_ else []) if (callee_of(t2).get("path") or "").endswith("Iterator::enumerate") and
+                        t2["argtys"] and ("SeriesPatch" in t2["argtys"][0] or "patch::Patch<" in t2["argtys"][0])]
+                if enum:
+                    why = "series_patches[index] with the index numbered off the series itself (C16-R1c)"
+        if why:
+            ck.ok(rule, inst, why, fn.where(o.term))
+        else:
+            ck.violate(rule, inst, "code that runs because an output operation failed can panic here (%s): the failure would end in a crash "
+                       "instead of an error message and exit status 1" % o.detail[:200], fn.where(o.term))
+    ck.floor(rule, "panic-capable sites on error paths of the output scope", n, 2)
 
 
 class ck_alias:
